@@ -6,9 +6,9 @@ LenDef == [p \in PrefixesDef |-> IF p = "" THEN 0 ELSE IF p = "b" THEN 1 ELSE 2]
 EntriesDef == {"foo", "a", "a/x", "a/sub/y", "a/sub/deep/z", "b", "b/w"}
 CoversDef == [p \in PrefixesDef |-> IF p = "" THEN EntriesDef ELSE IF p = "b" THEN {"b", "b/w"} ELSE {"a/sub/y", "a/sub/deep/z"}]
 ObjOfDef == [k \in EntriesDef |-> CASE k = "foo" -> "of" [] k = "a" -> "Da" [] k = "a/x" -> "ax" [] k = "a/sub/y" -> "ay"
-                                     [] k = "a/sub/deep/z" -> "az" [] k = "b" -> "Db" [] k = "b/w" -> "bw"]
-ObjectsDef == {"of", "Da", "ax", "ay", "az", "Db", "bw"}
-ListedDef == [d \in {"Da", "Db"} |-> IF d = "Da" THEN {"ax", "ay", "az"} ELSE {"bw"}]
+                                     [] k = "a/sub/deep/z" -> "az" [] k = "b" -> "Db" [] k = "b/w" -> "ax"]      \* b/w has the content of a/x: one object, two directories
+ObjectsDef == {"of", "Da", "ax", "ay", "az", "Db"}
+ListedDef == [d \in {"Da", "Db"} |-> IF d = "Da" THEN {"ax", "ay", "az"} ELSE {"ax"}]
 RemotesDef == {"R0", "R1"}
 CachesDef == {"C0", "C1"}
 Slots == {[cache |-> c, remote |-> r] : c \in CachesDef \cup {"-"}, r \in RemotesDef \cup {"-"}} \ {[cache |-> "-", remote |-> "-"]}
